@@ -246,6 +246,12 @@ def run(ctx):
         if len(alpha) != 4 or len(decl_nodes) < 1000:
             raise core.MachineryError("MC_Layout printed %d alphabets / %d declarations" % (len(alpha), len(decl_nodes)))
         # ------------------------------------------------------------ spec -> code, code -> spec
+        all_decls = len(decl_nodes)
+        if quick:
+            # quick tier: every 1-member declaration and a seeded sample of the 2-member ones
+            one = [n for n in decl_nodes if len(n["fields"]) <= 1]
+            two = [n for n in decl_nodes if len(n["fields"]) > 1]
+            decl_nodes = one + ctx.rng.sample(two, min(len(two), 1800))
         recs = measure(ctx, decl_nodes, "d")
         rrecs = frnd.result()
         fv.result()
@@ -262,8 +268,9 @@ def run(ctx):
               % (len(ctx.cov["model_divergences"]), ctx.cov["model_divergences"][0]))
     ctx.cov["rule"] = ("distinct = distinct declarations measured with gcc and cffi; TLC-enumerated ones cover every "
                        "member sequence of <= 2 letters of the alphabet in the class")
-    ctx.cov["exhaustive"] = True      # the replay covers the complete TLC graph up to PrintUpTo = 2 members
-    ctx.cov["bound"] = {"MaxFields": bound, "alphabet": len(alpha[0]), "replayed_up_to_members": 2,
+    # thorough: the replay covers the complete TLC graph up to 2 members; quick: all 1-member + a sample
+    ctx.cov["exhaustive"] = len(decl_nodes) == all_decls
+    ctx.cov["bound"] = {"MaxFields": bound, "alphabet": len(alpha[0]), "replayed_up_to_members": 2, "enumerated_declarations": all_decls, "replayed": len(decl_nodes),
                         "random_aggregates": len(rrecs)}
     ctx.cov["input_stats"] = {"enumerated": stats(decl_nodes), "random": stats(rnd)}
     ctx.assumptions += ["gcc -O0 on this machine is the platform C compiler of the property (x86-64 SysV); its answers "
